@@ -25,7 +25,31 @@ ASSUMPTIONS = ["the invariant is an internal-state invariant by nature: the rust
 
 def gen(rng, i, tier):
     return {"seed": rng.randrange(1 << 40), "n_ops": rng.choice([5, 12, 25, 40, 60]), "p_collide": rng.choice([0.2, 0.35, 0.5]),
-            "two_systems": i % 3 == 1, "no_reports": i % 2 == 1, "second_is_copy": i % 6 == 1, "reload": i % 4 == 2}
+            "two_systems": i % 3 == 1, "no_reports": i % 2 == 1, "second_is_copy": i % 6 == 1, "reload": i % 4 == 2,
+            "zero_prelude": i % 5 == 3}
+
+
+def _zero_prelude(rng, ns):
+    """A system whose node index 0 holds a NON-source that is the only child of its parent: created with a source
+    that is deleted once a second source exists; the next component added takes the recycled index 0."""
+    pool = list(hist.NAME_POOL)
+    rng.shuffle(pool)
+    s0, s1, b, m = pool[:4]
+    c0 = hist.comp_entry(rng, "Source", s0)
+    so = ns.System("hist", hist.make(ns, c0), group="", rail="")
+    pre = [{"op": "add_source", "comp": hist.comp_entry(rng, "Source", s1)},
+           {"op": "add_comp", "parent": s1, "comp": hist.comp_entry(rng, rng.choice(["Converter", "RLoss", "LinReg", "PSwitch", "VLoss"]), b)},
+           {"op": "del_comp", "name": s0, "del_childs": True},
+           {"op": "add_comp", "parent": b, "comp": hist.comp_entry(rng, rng.choice(["Converter", "RLoss", "ILoad", "PLoad", "RLoad", "PSwitch"]), m)}]
+    for op in pre:
+        st, exc = hist.apply(so, op, ns)
+        if st != "ok":
+            raise RuntimeError("prelude op rejected: %r -> %s" % (op, H.exc_sig(exc)))
+    # edits aimed at the parent of the index-0 node, tried first
+    aimed = [{"op": "change_comp", "name": b, "comp": hist.comp_entry(rng, rng.choice(["PLoad", "ILoad", "RLoad"]), rng.choice([b, b, pool[4]]))},
+             {"op": "del_comp", "name": b, "del_childs": False}]
+    rng.shuffle(aimed)
+    return so, {"comp": c0, "rail": "", "prelude": pre}, aimed[: rng.choice([1, 1, 2])]
 
 
 def directed():
@@ -37,11 +61,15 @@ def run(ctx, case):
     rng = random.Random(case["seed"])
     # one system, or two systems alive side by side whose edits are interleaved (a call on one must not reach the other)
     systems = []
+    aimed = []
     for k_ in range(2 if case.get("two_systems") else 1):
         if k_ == 1 and case.get("second_is_copy"):
             import copy
 
             so, start = copy.deepcopy(systems[0]["sys"]), dict(systems[0]["start"], copy_of_first=True)
+        elif k_ == 0 and case.get("zero_prelude"):
+            so, start, aimed = _zero_prelude(rng, ns)
+            ctx.count("history", "started with a non-source at the recycled node index 0")
         else:
             so, start = hist.start_system(rng, ns)
         systems.append({"sys": so, "start": start, "broken": set(x[0] for x in hist.invariants(so))})
@@ -49,7 +77,7 @@ def run(ctx, case):
     acc = rej = 0
     reload_at = rng.randrange(2, max(3, case["n_ops"] // 2)) if case.get("reload") else -1
     for k in range(case["n_ops"]):
-        cur = rng.choice(systems)
+        cur = systems[0] if aimed else rng.choice(systems)
         if k == reload_at:
             # the editing continues on the system as LOADED from its own saved file (a loaded system obeys the same rules)
             import os
@@ -67,7 +95,7 @@ def run(ctx, case):
         except Exception as e:  # the state is too broken to introspect; a previous step reported it
             ctx.count("history", "stopped: live state not introspectable (%s)" % type(e).__name__)
             break
-        op = hist.random_op(rng, L, p_collide=case["p_collide"])
+        op = aimed.pop(0) if aimed else hist.random_op(rng, L, p_collide=case["p_collide"])
         st, exc = hist.apply(sysobj, op, ns)
         ops.append({"op": op, "system": systems.index(cur), "outcome": "accepted" if st == "ok" else H.exc_sig(exc)})
         if st == "ok":
